@@ -43,7 +43,7 @@ var decoyPool = []string{"secret", "evil_v6-6-6", "plain.txt", "note.txt", "top.
 func (g *gctx) staticNames() []string {
 	switch g.comp {
 	case "fst":
-		return []string{"a", "d/b", "d/e/c", "d", "d/e", "a/x", "d/b/y"}
+		return []string{"a", "d/b", "d/e/c", "d", "d/e", "a/x", "d/b/y", "d/", "d/e/", "d/e/c/", "d/.."}
 	case "upd":
 		return []string{"all", "all/x_v1-0-0", "all/sub", "all/sub/y_v2-0-1.txt", "readme", "tmp", "tmp/q", "tmpfoo", "readme/x", "nope"}
 	}
